@@ -155,4 +155,56 @@ __CPROVER_ensures (gk == n - 1 ==> g_co == __CPROVER_return_value)
 __CPROVER_ensures (__CPROVER_return_value <= 1)
 ;
 
+/* ---- C10: logic operations, pointwise at gk */
+#define V_LOGIC(f, EXPR) void f (mp_ptr rp, mp_srcptr up, mp_srcptr vp, mp_size_t n) \
+__CPROVER_requires (1 <= n && n <= V_NMAX && 0 <= gk && gk < n) \
+__CPROVER_requires (V_W_OK (rp, n) && V_R_OK (up, n) && V_R_OK (vp, n) && V_SAME_OR_SEPARATE (rp, up, n) && V_SAME_OR_SEPARATE (rp, vp, n)) \
+__CPROVER_assigns (__CPROVER_object_upto (rp, n * 8)) \
+__CPROVER_ensures (rp[gk] == (EXPR))
+#define V_A __CPROVER_old (up[gk])
+#define V_Bb __CPROVER_old (vp[gk])
+V_LOGIC (__gmpn_and_n,  V_A & V_Bb);
+V_LOGIC (__gmpn_andn_n, V_A & ~V_Bb);
+V_LOGIC (__gmpn_nand_n, ~(V_A & V_Bb));
+V_LOGIC (__gmpn_ior_n,  V_A | V_Bb);
+V_LOGIC (__gmpn_iorn_n, V_A | ~V_Bb);
+V_LOGIC (__gmpn_nior_n, ~(V_A | V_Bb));
+V_LOGIC (__gmpn_xor_n,  V_A ^ V_Bb);
+V_LOGIC (__gmpn_xnor_n, ~(V_A ^ V_Bb));
+
+/* ---- popcount / hamdist: prefix sums.  g_pi / g_po: the count over limbs [0,gk) and [0,gk]  (ghost, linked like carries) */
+mp_bitcnt_t g_pi, g_po;
+mp_bitcnt_t __gmpn_popcount (mp_srcptr up, mp_size_t n)
+__CPROVER_requires (1 <= n && n <= V_NMAX && 0 <= gk && gk < n && V_R_OK (up, n))
+__CPROVER_assigns (g_pi, g_po)
+__CPROVER_ensures (g_po == g_pi + (mp_bitcnt_t) __builtin_popcountl (up[gk]))
+__CPROVER_ensures (gk == 0 ==> g_pi == 0)
+__CPROVER_ensures (gk == n - 1 ==> __CPROVER_return_value == g_po)
+__CPROVER_ensures (g_po <= 64 * (mp_bitcnt_t) (gk + 1) && __CPROVER_return_value <= 64 * (mp_bitcnt_t) n)
+;
+mp_bitcnt_t __gmpn_hamdist (mp_srcptr up, mp_srcptr vp, mp_size_t n)
+__CPROVER_requires (1 <= n && n <= V_NMAX && 0 <= gk && gk < n && V_R_OK (up, n) && V_R_OK (vp, n))
+__CPROVER_assigns (g_pi, g_po)
+__CPROVER_ensures (g_po == g_pi + (mp_bitcnt_t) __builtin_popcountl (up[gk] ^ vp[gk]))
+__CPROVER_ensures (gk == 0 ==> g_pi == 0)
+__CPROVER_ensures (gk == n - 1 ==> __CPROVER_return_value == g_po)
+__CPROVER_ensures (g_po <= 64 * (mp_bitcnt_t) (gk + 1) && __CPROVER_return_value <= 64 * (mp_bitcnt_t) n)
+;
+
+/* ---- scan0 / scan1: index of the first 0 / 1 bit at or after starting_bit.  The manual's precondition ("U must sooner or
+   later have a limb with a clear/set bit") is given as a ghost INPUT g_hd: a limb index >= the starting limb that has such a
+   bit.  Post: the returned bit r is >= starting_bit, bit r has the sought value, and (at ghost bit position gb) every bit in
+   [starting_bit, r) has the other value. */
+mp_bitcnt_t gb;
+#define V_BIT(p,b) (((p)[(b) / 64] >> ((b) % 64)) & 1)
+#define V_SCAN(f, WANT) mp_bitcnt_t f (mp_srcptr up, mp_bitcnt_t starting_bit) \
+__CPROVER_requires (0 <= g_hd && g_hd < V_NMAX && starting_bit / 64 <= (mp_bitcnt_t) g_hd && V_R_OK (up, g_hd + 1)) \
+__CPROVER_requires ((WANT ? up[g_hd] : ~up[g_hd]) != 0 && (starting_bit / 64 < (mp_bitcnt_t) g_hd || ((WANT ? up[g_hd] : ~up[g_hd]) >> (starting_bit % 64)) != 0)) \
+__CPROVER_assigns () \
+__CPROVER_ensures (starting_bit <= __CPROVER_return_value && __CPROVER_return_value / 64 <= (mp_bitcnt_t) g_hd) \
+__CPROVER_ensures (V_BIT (up, __CPROVER_return_value) == WANT) \
+__CPROVER_ensures ((starting_bit <= gb && gb < __CPROVER_return_value) ==> V_BIT (up, gb) == 1 - WANT)
+V_SCAN (__gmpn_scan0, 0);
+V_SCAN (__gmpn_scan1, 1);
+
 #endif
